@@ -40,6 +40,7 @@ type context struct {
 	store     *py.ModuleStore
 	opts      py.ContextOpts
 	closeOnce sync.Once
+	mu        sync.Mutex // guards closing, closed and admission to running
 	closing   bool
 	closed    bool
 	running   sync.WaitGroup
@@ -71,10 +72,10 @@ func NewContext(opts py.ContextOpts) py.Context {
 // ModuleInit digests a ModuleImpl, compiling and marshalling as needed, creating a new Module instance in this Context.
 func (ctx *context) ModuleInit(impl *py.ModuleImpl) (*py.Module, error) {
 	err := ctx.pushBusy()
-	defer ctx.popBusy()
 	if err != nil {
 		return nil, err
 	}
+	defer ctx.popBusy()
 
 	if impl.Code == nil && len(impl.CodeSrc) > 0 {
 		impl.Code, err = py.Compile(string(impl.CodeSrc), impl.Info.FileDesc, py.ExecMode, 0, true)
@@ -113,10 +114,10 @@ func (ctx *context) ModuleInit(impl *py.ModuleImpl) (*py.Module, error) {
 // See interface py.Context defined in py/run.go
 func (ctx *context) ResolveAndCompile(pathname string, opts py.CompileOpts) (py.CompileOut, error) {
 	err := ctx.pushBusy()
-	defer ctx.popBusy()
 	if err != nil {
 		return py.CompileOut{}, err
 	}
+	defer ctx.popBusy()
 
 	tryPaths := defaultPaths
 	if opts.UseSysPaths {
@@ -194,11 +195,16 @@ func (ctx *context) ResolveAndCompile(pathname string, opts py.CompileOpts) (py.
 
 func (ctx *context) pushBusy() error {
 	verifYield(ctx, "push.enter")
-	if ctx.closed {
+	// The check and the admission are one step with respect to Close:
+	// once Close has begun nothing more is admitted
+	ctx.mu.Lock()
+	if ctx.closing || ctx.closed {
+		ctx.mu.Unlock()
 		return py.ExceptionNewf(py.RuntimeError, "Context closed")
 	}
 	verifYield(ctx, "push.checked")
 	ctx.running.Add(1)
+	ctx.mu.Unlock()
 	verifYield(ctx, "push.added")
 	return nil
 }
@@ -214,11 +220,15 @@ func (ctx *context) Close() error {
 	verifYield(ctx, "close.enter")
 	ctx.closeOnce.Do(func() {
 		verifYield(ctx, "close.begin")
+		ctx.mu.Lock()
 		ctx.closing = true
+		ctx.mu.Unlock()
 		verifYield(ctx, "close.marked")
 		ctx.running.Wait()
 		verifYield(ctx, "close.waited")
+		ctx.mu.Lock()
 		ctx.closed = true
+		ctx.mu.Unlock()
 		verifYield(ctx, "close.closed")
 
 		// Give each module a chance to release resources
@@ -292,10 +302,10 @@ func resolveRunPath(runPath string, opts py.CompileOpts, pathObjs []py.Object, t
 // See interface py.Context defined in py/run.go
 func (ctx *context) RunCode(code *py.Code, globals, locals py.StringDict, closure py.Tuple) (py.Object, error) {
 	err := ctx.pushBusy()
-	defer ctx.popBusy()
 	if err != nil {
 		return nil, err
 	}
+	defer ctx.popBusy()
 
 	return vm.EvalCode(ctx, code, globals, locals, nil, nil, nil, nil, closure)
 }
